@@ -135,7 +135,9 @@ func scripted(ctx *common.Ctx, em *emitter) error {
 	m1, m2, m3, m4, m5 := w.marker(), w.marker(), w.marker(), w.marker(), w.marker()
 	S(&upd{Kind: "Noop"}, "fresh")
 	S(&upd{Kind: "MailboxCreated", MboxRID: "b1", Name: "A"}, "fresh")
-	S(&upd{Kind: "MailboxCreated", MboxRID: "b2", Name: "B"}, "fresh")
+	// FLAGS, PERMANENTFLAGS and attributes are three independent sets
+	S(&upd{Kind: "MailboxCreated", MboxRID: "b2", Name: "B", MbFlags: []string{`\Seen`, `\Flagged`, `\Deleted`, `\Answered`, "kw1"},
+		MbPerm: []string{`\Seen`, `\Deleted`, `\*`}, MbAttrs: []string{`\Archive`}}, "fresh")
 	S(&upd{Kind: "MessagesCreated", Items: []mcItem{
 		{RID: "r1", Marker: m1, Flags: []string{`\Seen`}, Mboxes: []string{"b1"}},
 		{RID: "r2", Marker: m2, Flags: nil, Mboxes: []string{"b1", "b2"}},
@@ -478,6 +480,18 @@ func randomEpisode(ctx *common.Ctx, em *emitter, epi int, steps int) error {
 				rid = pickMb()
 			}
 			u = &upd{Kind: "MailboxCreated", MboxRID: rid, Name: namePool[rng.Pick(len(namePool))]}
+			if rng.Chance(0.7) {
+				// the three sets are drawn independently of each other
+				u.MbFlags = append([]string{`\Seen`, `\Flagged`, `\Deleted`}, pickSome(rng, []string{`\Answered`, `\Draft`, "kw1", "kw2"}, 0.4)...)
+				u.MbPerm = pickSome(rng, []string{`\Seen`, `\Flagged`, `\Deleted`, `\Answered`, `\Draft`, "kw1", `\*`}, 0.5)
+				u.MbAttrs = pickSome(rng, []string{`\Archive`, `\Sent`, `\Trash`, `\Junk`}, 0.3)
+				if u.MbPerm == nil {
+					u.MbPerm = []string{}
+				}
+				if u.MbAttrs == nil {
+					u.MbAttrs = []string{}
+				}
+			}
 		case k < 15:
 			u = &upd{Kind: "MailboxDeleted", MboxRID: pickMb()}
 			if u.MboxRID == "0" {
